@@ -16,9 +16,9 @@ import enum
 
 from . import sym
 from .sym import SInt, SBool, Unsupported, is_sym, is_intlike, OPAQUE, BitLength
-from .values import (SObj, BoundMethod, SuperProxy, Closure, GenObj, SBytes, mk_bytes, SymSet,
+from .values import (SObj, BoundMethod, SuperProxy, Closure, GenObj, CoroObj, SBytes, mk_bytes, SymSet,
                      class_of, contains_sym, set_interp, values_equal, next_serial)
-from .path import RaiseEx, Infeasible
+from .path import RaiseEx, Infeasible, PathEnd
 from .spec import And, Or, Not, ite, SpecRaise, AnyOf
 from . import models
 
@@ -104,6 +104,9 @@ class Interp:
         self.depth = 0
         self.max_loop = 300
         self.log_calls = 0
+        self.local_class_models = {}
+        self.local_function_models = {}
+        self.world = None
         self.guards = []            # if-converted regions: (cond, first serial of the region, env)
         self.container_serial = {}
         set_interp(self)
@@ -597,14 +600,21 @@ class Interp:
             return self.call(f.__func__, (f.__self__,) + args, kwargs)
         if isinstance(f, Closure):
             return self.call_closure(f, args, kwargs)
+        if self.local_function_models:
+            try:
+                lm = self.local_function_models.get(f)
+            except TypeError:
+                lm = None
+            if lm is not None:
+                return lm(self, *args, **kwargs)
         if isinstance(f, types.FunctionType):
             if self.is_repo_function(f):
                 return self.call_repo_function(f, args, kwargs)
             m = models.FUNCTION_MODELS.get(f)
             if m is not None:
                 return m(self, *args, **kwargs)
-            if (f.__module__ or "").startswith("pyvc."):
-                return f(*args, **kwargs)       # engine-provided method model (already bound)
+            if (f.__module__ or "").split(".")[0] in ("pyvc", "checks", "contracts", "specs"):
+                return f(*args, **kwargs)       # engine / harness provided model (already bound)
             if not contains_sym(args) and not contains_sym(kwargs):
                 return self.native(f, *args, **kwargs)
             raise Unsupported("call of external function %s.%s with symbolic arguments"
@@ -764,8 +774,8 @@ class Interp:
             c = self.contracts.get(key)
             if c is not None:
                 return self.apply_contract(key, c, args, kwargs)
-        if isinstance(node, ast.AsyncFunctionDef) and not force_body and self.await_handler is None:
-            raise Unsupported("call of coroutine function %s" % key)
+        if isinstance(node, ast.AsyncFunctionDef) and not force_body:
+            return CoroObj(fn, args, kwargs)
         return self.run_function(fn, node, args, kwargs)
 
     def run_function(self, fn, node, args, kwargs):
@@ -812,6 +822,9 @@ class Interp:
         return self.run_body(node, env)
 
     def call_class(self, cls, args, kwargs):
+        lm = self.local_class_models.get(cls) if self.local_class_models else None
+        if lm is not None:
+            return lm(self, *args, **kwargs)
         m = models.CLASS_MODELS.get(cls)
         if m is not None:
             return m(self, *args, **kwargs)
@@ -1184,7 +1197,7 @@ class Interp:
                 # NB: runs for interpreted outcomes (return/break/raise); engine aborts
                 # (Infeasible/Unsupported) skip nothing observable
                 exc = sys.exc_info()[1]
-                if not isinstance(exc, (Infeasible, Unsupported)):
+                if not isinstance(exc, (Infeasible, Unsupported, PathEnd)):
                     self.exec_block(s.finalbody, env)
 
     def exc_matches(self, cls, t):
@@ -1217,7 +1230,7 @@ class Interp:
                 raise
             while exits:
                 self.call(exits.pop(), (None, None, None), {})
-        except (Infeasible, Unsupported):
+        except (Infeasible, Unsupported, PathEnd):
             raise
         except BaseException:
             while exits:
@@ -1228,9 +1241,33 @@ class Interp:
                 self.call(exits.pop(), (None, None, None), {})
 
     def s_AsyncWith(self, s, env):
-        if self.await_handler is None:
-            raise Unsupported("async with")
-        return self.await_handler.async_with(self, s, env)
+        entered = []
+        try:
+            for item in s.items:
+                cm = self.ev(item.context_expr, env)
+                if not hasattr(cm, "aenter"):
+                    raise Unsupported("async with on %r" % (type(cm).__name__,))
+                v = cm.aenter()
+                entered.append(cm)
+                if item.optional_vars is not None:
+                    self.assign(item.optional_vars, v, env)
+            self.exec_block(s.body, env)
+        finally:
+            exc = sys.exc_info()[1]
+            if not isinstance(exc, (Infeasible, Unsupported, PathEnd)):
+                while entered:
+                    entered.pop().aexit()
+
+    def do_await(self, v):
+        from .aio import Awaitable
+        if isinstance(v, CoroObj):
+            if v.started:
+                raise Unsupported("coroutine awaited twice")
+            v.started = True
+            return self.call_repo_function(v.func, v.args, v.kwargs, force_body=True)
+        if isinstance(v, Awaitable):
+            return v.resolve()
+        raise Unsupported("await of %r" % (type(v).__name__,))
 
     def s_AsyncFor(self, s, env):
         raise Unsupported("async for")
@@ -1611,6 +1648,8 @@ class Interp:
             return self.native(operator.contains, container, item)
         if isinstance(container, SymSet):
             return container.member(item)
+        if isinstance(container, models.AssocDict):
+            return Or([self.truth(self.eq(k, item)) for k, _ in container.live_entries()])
         if isinstance(container, (dict, set, frozenset)):
             if contains_sym(item):
                 keys = list(container.keys()) if isinstance(container, dict) else list(container)
@@ -1785,6 +1824,4 @@ class Interp:
         return None
 
     def e_Await(self, n, env):
-        if self.await_handler is None:
-            raise Unsupported("await")
-        return self.await_handler.await_(self, n, env)
+        return self.do_await(self.ev(n.value, env))
